@@ -390,6 +390,10 @@ func TestTransport(t *testing.T) {
 			if c.Entry == "transport" && clientCall(c.Key) != nil {
 				c.Entry = "client"
 				jobs <- job{c: c, stream: cf.Frame}
+				if c.Key == 0 {
+					c.Entry = "client-raw" // Client.RawProduce: the second produce entry of the Client, with validation of its own
+					jobs <- job{c: c, stream: cf.Frame}
+				}
 			}
 		}
 		if shard == 0 {
@@ -479,6 +483,10 @@ func TestTransport(t *testing.T) {
 							if c.Entry == "transport" && clientCall(c.Key) != nil {
 								c.Entry = "client"
 								jobs <- job{c: c, stream: fr}
+								if c.Key == 0 {
+									c.Entry = "client-raw"
+									jobs <- job{c: c, stream: fr}
+								}
 							}
 						}
 					}
